@@ -9,6 +9,15 @@
                      callees opaque (their qualified names are put on the inliner's recursion stack), (c) reads module-level integer
                      constants as literals and (d) rewrites polarity-filtered comprehensions / conditional receivers into statements
                      so that valuation-aware provenance can tell add from delete effects.
+* normal forms  -- rewrites of the flattened copy, applied round by round together with the inliner until nothing changes:
+                     `_Functional` (map / filter / operator-module functions / attrgetter / itemgetter / methodcaller / unbound
+                     builtin methods / lambdas applied on the spot / trivial classmethods / lookups in module-level dicts of
+                     constants and callables / boolean-indexed two-way tables / any-all over a table of constant keys),
+                     `_split_boolops` (`x = a and self._h()` -> statements, so that the conditionally evaluated helper is inlined
+                     on its branch), `_hoist_nested_comprehensions`, the engine's generator-helper expansion, `_Records`
+                     (NamedTuple / dataclass locals: members inlined, then one local per field, loops over zip(record, record)
+                     unrolled, typed field reads become positions) and `_ConstDicts` (dicts only used with constant keys -> one
+                     local per key).  What cannot be split is listed in `FuncInfo.unsplit_records`.
 * `origins` / `flows_from` / `same_object`
                   -- allocation-site identity of a local object: the expression(s) that created the value a name holds, following
                      plain copies (also the parameter bindings of inlined helpers), tuple-literal unpacking and tuples returned by
@@ -37,6 +46,14 @@ from .. import lib as L
 from .. import prov as P
 from ..core import AnalysisError, FuncInfo, Repo
 from ..inline import Flattener, specialise
+try:        # generator-helper expansion of the engine (absent in older engines: generator helpers then stay opaque)
+    from ..inline import expand_generators, _loops_over_generators
+except ImportError:                                                         # pragma: no cover
+    def expand_generators(repo, f, fn, stack):
+        return False
+
+    def _loops_over_generators(repo, f, body):
+        return body
 from ..prov import callee_name
 
 ANCHOR = "PlanConverter.convert_plan"
@@ -106,8 +123,39 @@ def _expand_polarity_constructs(fl: Flattener, fn: ast.AST) -> None:
     def has_filter(c) -> bool:
         return isinstance(c, COMPS) and any(_mentions_polarity(i) for g_ in c.generators for i in g_.ifs)
 
+    def alias_ifs(body: List[ast.stmt]) -> List[ast.stmt]:
+        """`t = a if lit.is_positive else b` (or the same as an if statement) followed by uses of t in the same block: t is read as
+        the conditional expression (then `t.add(x)` is the conditional receiver handled below)"""
+        body = list(body)
+        i = 0
+        while i < len(body):
+            st = body[i]
+            t = ife = None
+            if isinstance(st, ast.Assign) and len(st.targets) == 1 and isinstance(st.targets[0], ast.Name) and isinstance(st.value, ast.IfExp):
+                t, ife = st.targets[0].id, st.value
+            elif type(st) is ast.If and len(st.body) == 1 and len(st.orelse) == 1 and all(
+                    isinstance(x, ast.Assign) and len(x.targets) == 1 and isinstance(x.targets[0], ast.Name) for x in (st.body[0], st.orelse[0])) \
+                    and st.body[0].targets[0].id == st.orelse[0].targets[0].id:
+                t = st.body[0].targets[0].id
+                ife = ast.copy_location(ast.IfExp(test=st.test, body=st.body[0].value, orelse=st.orelse[0].value), st)
+            if t is not None and _mentions_polarity(ife.test) and isinstance(ife.body, ast.Name) and isinstance(ife.orelse, ast.Name):
+                rest = body[i + 1:]
+                loads_rest = sum(1 for s_ in rest for x in ast.walk(s_) if isinstance(x, ast.Name) and x.id == t and isinstance(x.ctx, ast.Load))
+                loads_all = sum(1 for x in ast.walk(fn) if isinstance(x, ast.Name) and x.id == t and isinstance(x.ctx, ast.Load))
+                stores_all = sum(1 for x in ast.walk(fn) if isinstance(x, ast.Name) and x.id == t and not isinstance(x.ctx, ast.Load))
+                stores_here = sum(1 for x in ast.walk(st) if isinstance(x, ast.Name) and x.id == t and not isinstance(x.ctx, ast.Load))
+                used = {x.id for x in ast.walk(ife) if isinstance(x, ast.Name)}
+                restored = {x.id for s_ in rest for x in ast.walk(s_) if isinstance(x, ast.Name) and not isinstance(x.ctx, ast.Load)}
+                if loads_rest and loads_rest == loads_all and stores_all == stores_here and not (used & restored):
+                    body[i + 1:] = [_Subst({t: ife}).visit(s_) for s_ in rest]
+                    del body[i]
+                    continue
+            i += 1
+        return body
+
     def rewrite_block(body: List[ast.stmt]) -> List[ast.stmt]:
         out: List[ast.stmt] = []
+        body = alias_ifs(body)
         for st in body:
             for fld in ("body", "orelse", "finalbody"):
                 sub = getattr(st, fld, None)
@@ -196,6 +244,1118 @@ def _expand_polarity_constructs(fl: Flattener, fn: ast.AST) -> None:
     fn.body = rewrite_block(list(fn.body))
 
 
+
+# --------------------------------------------------------------------------------------------------------------- normal forms
+# Local engine extensions (candidates for promotion into sa/inline.py): source-level idioms are rewritten, in the flattened copy
+# only, into the statement forms the provenance / valuation engines interpret.
+_nf_counter = itertools.count(1)
+_SCOPES = (ast.FunctionDef, ast.AsyncFunctionDef, ast.Lambda, ast.ClassDef)
+_OP_BIN = {"and_": ast.BitAnd, "or_": ast.BitOr, "xor": ast.BitXor, "sub": ast.Sub, "add": ast.Add}
+_OP_CMP = {"eq": ast.Eq, "ne": ast.NotEq, "is_": ast.Is, "is_not": ast.IsNot, "lt": ast.Lt, "le": ast.LtE, "gt": ast.Gt, "ge": ast.GtE}
+_BUILTIN_TYPES = ("set", "frozenset", "list", "dict", "str", "tuple")
+
+
+def _walk_scope(node: ast.AST):
+    todo = [node]
+    while todo:
+        n = todo.pop()
+        yield n
+        for ch in ast.iter_child_nodes(n):
+            if not isinstance(ch, _SCOPES):
+                todo.append(ch)
+
+
+def _store_counts(fn: ast.AST) -> Dict[str, int]:
+    out: Dict[str, int] = {}
+    for n in ast.walk(fn):
+        if isinstance(n, ast.Name) and isinstance(n.ctx, (ast.Store, ast.Del)):
+            out[n.id] = out.get(n.id, 0) + 1
+        elif isinstance(n, ast.arg):
+            out[n.arg] = out.get(n.arg, 0) + 1
+        elif isinstance(n, ast.ExceptHandler) and n.name:
+            out[n.name] = out.get(n.name, 0) + 1
+    return out
+
+
+def _single_defs(fn: ast.AST) -> Dict[str, ast.AST]:
+    """names stored exactly once, by a plain assignment: name -> value expression"""
+    cnt = _store_counts(fn)
+    out: Dict[str, ast.AST] = {}
+    for n in ast.walk(fn):
+        if isinstance(n, ast.Assign) and len(n.targets) == 1 and isinstance(n.targets[0], ast.Name) and cnt.get(n.targets[0].id) == 1:
+            out[n.targets[0].id] = n.value
+        elif isinstance(n, ast.AnnAssign) and isinstance(n.target, ast.Name) and n.value is not None and cnt.get(n.target.id) == 1:
+            out[n.target.id] = n.value
+    return out
+
+
+class _Subst(ast.NodeTransformer):
+    """replace loads of names by (copies of) expressions"""
+
+    def __init__(self, mapping: Dict[str, ast.AST]):
+        self.m = mapping
+
+    def visit_Name(self, n):
+        if isinstance(n.ctx, ast.Load) and n.id in self.m:
+            return ast.copy_location(copy.deepcopy(self.m[n.id]), n)
+        return n
+
+
+def _located(new: ast.AST, at: ast.AST) -> ast.AST:
+    ast.copy_location(new, at)
+    for sub in ast.walk(new):
+        if isinstance(sub, (ast.expr, ast.stmt)) and not hasattr(sub, "lineno"):
+            ast.copy_location(sub, at)
+    ast.fix_missing_locations(new)
+    return new
+
+
+class _Functional(ast.NodeTransformer):
+    """map / filter / operator-module functions / attrgetter / itemgetter / methodcaller / unbound builtin methods / lambdas that
+    are applied on the spot / trivial classmethods (`return cls(..)`) / boolean-indexed two-way tables are read as the expression
+    they compute: `map(f, xs)` -> `(f(x) for x in xs)`, `set.isdisjoint(a, b)` -> `a.isdisjoint(b)`, `attrgetter('n')(x)` -> `x.n`,
+    `{True: a, False: b}[c]` / `(b, a)[c]` -> `a if c else b`; `set(<generator>)` / `list(<generator>)` become comprehensions"""
+
+    def __init__(self, repo: Repo, f: FuncInfo, fn: ast.AST):
+        self.repo, self.f = repo, f
+        self.changed = False
+        self.locals = set(_store_counts(fn))
+        self.single = _single_defs(fn)
+
+    def visit_FunctionDef(self, n):
+        if getattr(self, "_top", None) is None:
+            self._top = n
+            self.generic_visit(n)
+        return n
+
+    def visit_ClassDef(self, n):
+        return n
+
+    # -- what an expression denotes
+    def ext(self, e: ast.AST) -> Optional[str]:
+        try:
+            if isinstance(e, ast.Name) and e.id not in self.locals:
+                r = self.repo.lookup(self.f.mod.name, e.id)
+                if r and r[0] == "external":
+                    return f"{r[1][0]}.{r[1][1]}"
+            if isinstance(e, ast.Attribute) and isinstance(e.value, ast.Name) and e.value.id not in self.locals:
+                r = self.repo.lookup(self.f.mod.name, e.value.id)
+                if r and r[0] == "module":
+                    return f"{r[1]}.{e.attr}"
+        except Exception:
+            pass
+        return None
+
+    def is_form(self, e: ast.AST) -> bool:
+        """a callable written as an expression this pass can apply"""
+        if isinstance(e, ast.Lambda):
+            return True
+        if isinstance(e, ast.Call) and (self.ext(e.func) or "") in ("operator.attrgetter", "operator.itemgetter", "operator.methodcaller"):
+            return True
+        if (self.ext(e) or "").startswith("operator."):
+            return True
+        if isinstance(e, ast.Attribute) and isinstance(e.value, ast.Name) and e.value.id in _BUILTIN_TYPES and e.value.id not in self.locals:
+            return True
+        return False
+
+    def resolve(self, F: ast.AST, depth: int = 0) -> ast.AST:
+        if isinstance(F, ast.Name) and depth < 4:
+            v = None
+            if F.id in self.single:
+                v = self.single[F.id]
+            elif F.id not in self.locals:
+                try:
+                    r = self.repo.lookup(self.f.mod.name, F.id)
+                except Exception:
+                    r = None
+                if r and r[0] == "const":
+                    v = r[1]
+            if v is not None:
+                v = self.resolve(v, depth + 1)
+                if self.is_form(v):
+                    return v
+        return F
+
+    def apply(self, F: ast.AST, args: List[ast.AST], keywords=()) -> Optional[ast.AST]:
+        """the expression F(*args); None when F is an ordinary function reference"""
+        F = self.resolve(F)
+        if isinstance(F, ast.Lambda) and not keywords:
+            a = F.args
+            if a.vararg or a.kwarg or a.kwonlyargs or a.defaults or len(a.posonlyargs + a.args) != len(args):
+                return None
+            names = [x.arg for x in a.posonlyargs + a.args]
+            if not all(isinstance(x, (ast.Name, ast.Constant, ast.Attribute)) for x in args):
+                return None
+            mapping = dict(zip(names, args))
+            # the inliner renames the locals of a helper but not the parameters of its lambdas: a parameter that shares its name
+            # with a local of the helper is read as `<param>__i<n>` in the lambda's body
+            for x in ast.walk(F.body):
+                if isinstance(x, ast.Name) and x.id not in mapping:
+                    m = re.match(r"(.+?)(__[igc]\d+)+$", x.id)
+                    if m and m.group(1) in mapping:
+                        mapping[x.id] = mapping[m.group(1)]
+            return _Subst(mapping).visit(copy.deepcopy(F.body))
+        if isinstance(F, ast.Call) and not keywords:
+            kind = self.ext(F.func) or ""
+            if kind == "operator.attrgetter" and len(F.args) == 1 and len(args) == 1 and isinstance(F.args[0], ast.Constant) and isinstance(F.args[0].value, str):
+                out = args[0]
+                for part in F.args[0].value.split("."):
+                    out = ast.Attribute(value=out, attr=part, ctx=ast.Load())
+                return out
+            if kind == "operator.itemgetter" and len(F.args) == 1 and len(args) == 1:
+                return ast.Subscript(value=args[0], slice=copy.deepcopy(F.args[0]), ctx=ast.Load())
+            if kind == "operator.methodcaller" and F.args and len(args) == 1 and isinstance(F.args[0], ast.Constant) and isinstance(F.args[0].value, str):
+                return ast.Call(func=ast.Attribute(value=args[0], attr=F.args[0].value, ctx=ast.Load()), args=[copy.deepcopy(x) for x in F.args[1:]],
+                                keywords=[copy.deepcopy(k) for k in F.keywords])
+            return None
+        kind = self.ext(F) or ""
+        if kind.startswith("operator.") and not keywords:
+            op = kind.split(".", 1)[1]
+            if op in _OP_BIN and len(args) == 2:
+                return ast.BinOp(left=args[0], op=_OP_BIN[op](), right=args[1])
+            if op in _OP_CMP and len(args) == 2:
+                return ast.Compare(left=args[0], ops=[_OP_CMP[op]()], comparators=[args[1]])
+            if op == "contains" and len(args) == 2:
+                return ast.Compare(left=args[1], ops=[ast.In()], comparators=[args[0]])
+            if op == "not_" and len(args) == 1:
+                return ast.UnaryOp(op=ast.Not(), operand=args[0])
+            if op == "truth" and len(args) == 1:
+                return ast.Call(func=ast.Name(id="bool", ctx=ast.Load()), args=[args[0]], keywords=[])
+            if op == "getitem" and len(args) == 2:
+                return ast.Subscript(value=args[0], slice=args[1], ctx=ast.Load())
+            return None
+        if isinstance(F, ast.Attribute) and isinstance(F.value, ast.Name) and F.value.id in _BUILTIN_TYPES and F.value.id not in self.locals and args:
+            return ast.Call(func=ast.Attribute(value=args[0], attr=F.attr, ctx=ast.Load()), args=list(args[1:]), keywords=list(keywords))
+        return None
+
+    def _trivial_classmethod(self, n: ast.Call) -> Optional[ast.AST]:
+        fn = n.func
+        if not (isinstance(fn, ast.Attribute) and isinstance(fn.value, ast.Name) and fn.value.id in self.repo.classes and fn.value.id not in self.locals):
+            return None
+        m = self.repo.find_method(fn.value.id, fn.attr)
+        if m is None or not any(isinstance(d, ast.Name) and d.id == "classmethod" for d in m.node.decorator_list) or len(m.node.decorator_list) != 1:
+            return None
+        body = [s for s in m.node.body if not (isinstance(s, ast.Expr) and isinstance(s.value, ast.Constant) and isinstance(s.value.value, str))]
+        if len(body) != 1 or not isinstance(body[0], ast.Return) or body[0].value is None or not m.params:
+            return None
+        if any(isinstance(a, ast.Starred) for a in n.args) or any(k.arg is None for k in n.keywords):
+            return None
+        bound = bind_args(n, m)
+        mapping: Dict[str, ast.AST] = {m.params[0]: ast.Name(id=fn.value.id, ctx=ast.Load())}
+        for pn in m.params[1:]:
+            v = bound.get(pn, m.defaults.get(pn))
+            if v is None or not isinstance(v, (ast.Name, ast.Constant)):
+                return None
+            mapping[pn] = v
+        if any(isinstance(x, ast.Name) and isinstance(x.ctx, ast.Store) for x in ast.walk(body[0].value)):
+            return None
+        return _Subst(mapping).visit(copy.deepcopy(body[0].value))
+
+    def visit_Call(self, n: ast.Call):
+        self.generic_visit(n)
+        new: Optional[ast.AST] = None
+        fn = n.func
+        star = any(isinstance(a, ast.Starred) for a in n.args) or any(k.arg is None for k in n.keywords)
+        if isinstance(fn, ast.Name) and fn.id in ("map", "filter") and fn.id not in self.locals and not star and not n.keywords and len(n.args) >= 2:
+            k = next(_nf_counter)
+            if fn.id == "map":
+                vs = [ast.Name(id=f"__m{k}_{i}", ctx=ast.Load()) for i in range(len(n.args) - 1)]
+                elt = self.apply(n.args[0], list(vs))
+                if elt is None:
+                    elt = ast.Call(func=copy.deepcopy(n.args[0]), args=list(vs), keywords=[])
+                if len(vs) == 1:
+                    tgt, it = ast.Name(id=vs[0].id, ctx=ast.Store()), n.args[1]
+                else:
+                    tgt = ast.Tuple(elts=[ast.Name(id=v.id, ctx=ast.Store()) for v in vs], ctx=ast.Store())
+                    it = ast.Call(func=ast.Name(id="zip", ctx=ast.Load()), args=list(n.args[1:]), keywords=[])
+                new = ast.GeneratorExp(elt=elt, generators=[ast.comprehension(target=tgt, iter=it, ifs=[], is_async=0)])
+            elif len(n.args) == 2:
+                v = ast.Name(id=f"__m{k}_0", ctx=ast.Load())
+                if isinstance(n.args[0], ast.Constant) and n.args[0].value is None:
+                    cond: Optional[ast.AST] = ast.Name(id=v.id, ctx=ast.Load())
+                else:
+                    cond = self.apply(n.args[0], [ast.Name(id=v.id, ctx=ast.Load())]) or ast.Call(func=copy.deepcopy(n.args[0]), args=[ast.Name(id=v.id, ctx=ast.Load())], keywords=[])
+                new = ast.GeneratorExp(elt=v, generators=[ast.comprehension(target=ast.Name(id=v.id, ctx=ast.Store()), iter=n.args[1], ifs=[cond], is_async=0)])
+            if new is not None:
+                new._from_functional = True
+        elif not star:
+            new = self.apply(fn, list(n.args), list(n.keywords)) if self.is_form(self.resolve(fn)) else None
+            if new is None and isinstance(fn, ast.Name) and fn.id in ("any", "all") and fn.id not in self.locals and len(n.args) == 1 and not n.keywords:
+                new = self._unrolled(n)
+            if new is None:
+                new = self._trivial_classmethod(n)
+            if new is None and isinstance(fn, ast.Name) and fn.id in ("set", "list") and fn.id not in self.locals and len(n.args) == 1 and not n.keywords \
+                    and isinstance(n.args[0], ast.GeneratorExp) and (getattr(n.args[0], "_from_functional", False) or _has_private_call(n.args[0])):
+                g = n.args[0]
+                new = (ast.SetComp if fn.id == "set" else ast.ListComp)(elt=g.elt, generators=g.generators)
+        if new is None:
+            return n
+        self.changed = True
+        return _located(new, n)
+
+    def _static(self, e: ast.AST) -> bool:
+        """a value that can be copied to its place of use: a constant, a reference to a module-level object, a callable form"""
+        if isinstance(e, ast.Constant) or self.is_form(e):
+            return True
+        if isinstance(e, ast.Name):
+            return e.id not in self.locals
+        if isinstance(e, ast.Attribute):
+            return self._static(e.value)
+        if isinstance(e, ast.Tuple):
+            return all(self._static(x) for x in e.elts)
+        return False
+
+    def _global_value(self, e: ast.AST) -> Optional[ast.AST]:
+        if isinstance(e, ast.Name) and e.id not in self.locals:
+            try:
+                r = self.repo.lookup(self.f.mod.name, e.id)
+            except Exception:
+                r = None
+            if r and r[0] == "const":
+                return r[1]
+        return None
+
+    def _const_rows(self, it: ast.AST) -> Optional[List[ast.AST]]:
+        """rows of a table of constants (module constant, or a literal in place)"""
+        t = self._global_value(it) if isinstance(it, ast.Name) else it
+        if isinstance(t, (ast.Tuple, ast.List)) and t.elts and all(self._static(x) and not isinstance(x, ast.Name) for x in t.elts) \
+                and all(isinstance(x, ast.Constant) or (isinstance(x, ast.Tuple) and all(isinstance(y, ast.Constant) for y in x.elts)) for x in t.elts):
+            return list(t.elts)
+        return None
+
+    def _unrolled(self, n: ast.Call) -> Optional[ast.AST]:
+        """any / all over a comprehension whose only iterable is a table of constants: the list of the instantiated elements"""
+        c = n.args[0]
+        if not isinstance(c, (ast.GeneratorExp, ast.ListComp)) or len(c.generators) != 1 or c.generators[0].ifs or c.generators[0].is_async:
+            return None
+        gen = c.generators[0]
+        rows = self._const_rows(gen.iter)
+        if rows is None or len(rows) > 40:
+            return None
+        if not any(isinstance(x, ast.Subscript) and any(isinstance(y, ast.Name) and y.id in C.target_names(gen.target) for y in ast.walk(x.slice)) for x in ast.walk(c.elt)):
+            return None         # only when the constants select something (keys of a dict / positions)
+        elts = []
+        for row in rows:
+            env: Dict[str, ast.AST] = {}
+            if not Verdict.bind(gen.target, row, env):
+                return None
+            elts.append(_Subst(env).visit(copy.deepcopy(c.elt)))
+        return ast.Call(func=n.func, args=[ast.List(elts=elts, ctx=ast.Load())], keywords=[])
+
+    def visit_Subscript(self, n: ast.Subscript):
+        self.generic_visit(n)
+        if isinstance(n.ctx, ast.Load) and isinstance(n.slice, ast.Constant):
+            # TABLE['key'] where TABLE is a module-level dict of constants / callables
+            t = self._global_value(n.value)
+            if isinstance(t, ast.Dict) and all(isinstance(k, ast.Constant) for k in t.keys):
+                hits = [v for k, v in zip(t.keys, t.values) if k.value == n.slice.value and type(k.value) is type(n.slice.value)]
+                if len(hits) == 1 and self._static(hits[0]):
+                    self.changed = True
+                    return _located(copy.deepcopy(hits[0]), n)
+        if not isinstance(n.ctx, ast.Load) or isinstance(n.slice, (ast.Slice, ast.Constant, ast.Tuple)):
+            return n
+        t = self.resolve(n.value) if isinstance(n.value, ast.Name) else n.value
+        yes = no = None
+        if isinstance(t, ast.Dict) and len(t.keys) == 2 and all(isinstance(k, ast.Constant) and isinstance(k.value, bool) for k in t.keys) \
+                and {k.value for k in t.keys} == {True, False}:
+            for k, v in zip(t.keys, t.values):
+                if k.value:
+                    yes = v
+                else:
+                    no = v
+        elif isinstance(t, (ast.Tuple, ast.List)) and len(t.elts) == 2 and _boolean_valued(n.slice):
+            no, yes = t.elts
+        if yes is None or no is None or not all(isinstance(x, (ast.Name, ast.Attribute, ast.Constant)) for x in (yes, no)):
+            return n
+        self.changed = True
+        return _located(ast.IfExp(test=n.slice, body=copy.deepcopy(yes), orelse=copy.deepcopy(no)), n)
+
+
+def _boolean_valued(e: ast.AST) -> bool:
+    if isinstance(e, ast.Compare) or (isinstance(e, ast.UnaryOp) and isinstance(e.op, ast.Not)):
+        return True
+    if isinstance(e, ast.Call) and isinstance(e.func, ast.Name) and e.func.id in ("bool", "isinstance"):
+        return True
+    if isinstance(e, ast.Attribute) and e.attr.startswith(("is_", "has_")):
+        return True
+    return False
+
+
+def _has_private_call(e: ast.AST) -> bool:
+    return any(isinstance(n, ast.Call) and is_private(callee_name(n)) for n in ast.walk(e))
+
+
+def _split_boolops(fn: ast.AST) -> bool:
+    """`x = a and self._h(..)` is exactly `x = a; if x: x = self._h(..)` (`or`: `if not x`).  Written as statements the conditionally
+    evaluated private helper can be inlined on its own branch; the same for `return a and h()`, `if a and h():`, `if not (a and h()):`"""
+    changed = [False]
+
+    def chain(name: str, e: ast.BoolOp, at: ast.stmt) -> List[ast.stmt]:
+        def assign(v):
+            return _located(ast.Assign(targets=[ast.Name(id=name, ctx=ast.Store())], value=v, lineno=at.lineno), at)
+        out = [assign(e.values[0])]
+        cur = out
+        for v in e.values[1:]:
+            test: ast.AST = ast.Name(id=name, ctx=ast.Load())
+            if isinstance(e.op, ast.Or):
+                test = ast.UnaryOp(op=ast.Not(), operand=test)
+            nxt = _located(ast.If(test=test, body=[assign(v)], orelse=[]), at)
+            cur.append(nxt)
+            cur = nxt.body
+        return out
+
+    def wanted(e: Optional[ast.AST]) -> bool:
+        return isinstance(e, ast.BoolOp) and any(_has_private_call(v) for v in e.values[1:])
+
+    def stmt(st: ast.stmt) -> List[ast.stmt]:
+        if isinstance(st, ast.Assign) and len(st.targets) == 1 and isinstance(st.targets[0], ast.Name) and wanted(st.value) \
+                and not any(isinstance(x, ast.Name) and x.id == st.targets[0].id for v in st.value.values[1:] for x in ast.walk(v)):
+            changed[0] = True
+            return chain(st.targets[0].id, st.value, st)
+        fld = "value" if isinstance(st, (ast.Return, ast.Assign, ast.AnnAssign)) else ("test" if type(st) is ast.If or isinstance(st, ast.Assert) else None)
+        if fld is None:
+            return [st]
+        e = getattr(st, fld)
+        neg = False
+        inner = e
+        while isinstance(inner, ast.UnaryOp) and isinstance(inner.op, ast.Not) and fld == "test":
+            inner, neg = inner.operand, not neg
+        if not wanted(inner):
+            return [st]
+        tmp = f"__bo{next(_nf_counter)}"
+        pre = chain(tmp, inner, st)
+        new: ast.AST = ast.Name(id=tmp, ctx=ast.Load())
+        if neg:
+            new = ast.UnaryOp(op=ast.Not(), operand=new)
+        setattr(st, fld, _located(new, e))
+        changed[0] = True
+        return pre + [st]
+
+    _rewrite_blocks(fn, stmt)
+    return changed[0]
+
+
+def _hoist_nested_comprehensions(fn: ast.AST) -> bool:
+    """the inliner expands a comprehension that calls a private helper when it is the whole value of an assignment / return; one
+    that is nested in a larger expression (`return {f(x) for ..}, {g(x) for ..}`) is given a name first"""
+    changed = [False]
+    COMPS = (ast.ListComp, ast.SetComp, ast.DictComp)
+
+    def in_expr(e: ast.AST, pre: List[ast.stmt], at: ast.stmt, top: bool) -> ast.AST:
+        if isinstance(e, (ast.Lambda, ast.GeneratorExp, ast.IfExp)):
+            return e
+        if isinstance(e, COMPS):
+            if top or not _has_private_call(e):
+                return e
+            tmp = f"__hc{next(_nf_counter)}"
+            pre.append(_located(ast.Assign(targets=[ast.Name(id=tmp, ctx=ast.Store())], value=e, lineno=at.lineno), at))
+            changed[0] = True
+            return ast.copy_location(ast.Name(id=tmp, ctx=ast.Load()), e)
+        if isinstance(e, ast.BoolOp):
+            e.values[0] = in_expr(e.values[0], pre, at, False)
+            return e
+        for fld, val in ast.iter_fields(e):
+            if isinstance(val, ast.AST):
+                setattr(e, fld, in_expr(val, pre, at, False))
+            elif isinstance(val, list):
+                setattr(e, fld, [in_expr(v, pre, at, False) if isinstance(v, ast.AST) else v for v in val])
+        return e
+
+    def stmt(st: ast.stmt) -> List[ast.stmt]:
+        if not isinstance(st, (ast.Assign, ast.AnnAssign, ast.Return, ast.Expr, ast.AugAssign)) or getattr(st, "value", None) is None:
+            return [st]
+        if isinstance(st, ast.AugAssign) and isinstance(st.target, ast.Name) and _has_private_call(st.value) and (
+                (isinstance(st.op, ast.BitOr) and isinstance(st.value, ast.SetComp)) or (isinstance(st.op, ast.Add) and isinstance(st.value, ast.ListComp))):
+            # s |= {f(x) for ..} is s.update({f(x) for ..}); l += [f(x) for ..] is l.extend([..])
+            meth = "update" if isinstance(st.op, ast.BitOr) else "extend"
+            changed[0] = True
+            return [_located(ast.Expr(value=ast.Call(func=ast.Attribute(value=ast.Name(id=st.target.id, ctx=ast.Load()), attr=meth, ctx=ast.Load()),
+                                                     args=[st.value], keywords=[])), st)]
+        pre: List[ast.stmt] = []
+        st.value = in_expr(st.value, pre, st, True)
+        return pre + [st]
+
+    _rewrite_blocks(fn, stmt)
+    return changed[0]
+
+
+# -- records (NamedTuple / dataclass / collections.namedtuple): scalar replacement of record-valued locals
+def record_fields(repo: Repo, cname: str) -> Optional[List[str]]:
+    ci = repo.classes.get(cname)
+    if ci is None:
+        return None
+    nt = any(b.split(".")[-1] == "NamedTuple" for b in ci.bases)
+    dc = any((isinstance(d, ast.Name) and d.id == "dataclass") or (isinstance(d, ast.Attribute) and d.attr == "dataclass")
+             or (isinstance(d, ast.Call) and isinstance(d.func, (ast.Name, ast.Attribute)) and (getattr(d.func, "id", None) or getattr(d.func, "attr", None)) == "dataclass")
+             for d in ci.node.decorator_list)
+    if not (nt or dc) or not ci.fields or "__init__" in ci.methods or "__new__" in ci.methods:
+        return None
+    return list(ci.fields)
+
+
+def _record_defaults(repo: Repo, cname: str) -> Dict[str, ast.AST]:
+    return {b.target.id: b.value for b in repo.classes[cname].node.body if isinstance(b, ast.AnnAssign) and isinstance(b.target, ast.Name) and b.value is not None}
+
+
+class _Records:
+    """record-valued locals of a flattened function.  `X = Rec(a, b)` ... `X.f` / `X[0]` / `for u, v in zip(X, Y)` / `X.method(..)`:
+    methods and properties of the record class are inlined (with the engine's inliner), then every record local is replaced by
+    one local per field (`X__f_<field>`), whole-record uses become the tuple of the field locals, and loops over such tuples are
+    unrolled.  Anything that cannot be scalarised is listed in `failed` (the rules then refuse to guess)."""
+
+    def __init__(self, repo: Repo, ctx: FuncInfo, fn: ast.AST, extractors: Optional[Dict[str, dict]] = None):
+        self.repo, self.ctx, self.fn = repo, ctx, fn
+        self.extractors = extractors or {}
+        self.failed: List[str] = []
+        self.vars: Dict[str, str] = {}
+        self._discover()
+
+    # -- typing
+    def _returns_record(self, call: ast.Call) -> Optional[str]:
+        if not is_private(callee_name(call)):
+            return None
+        t = unique_target(self.repo, self.ctx, call)
+        if t is None or t.node.returns is None:
+            return None
+        return self._ann_record(t.node.returns)
+
+    def ctor(self, e: ast.AST) -> Optional[str]:
+        if isinstance(e, ast.Call) and isinstance(e.func, ast.Name) and e.func.id not in self.locals and record_fields(self.repo, e.func.id):
+            return e.func.id
+        return None
+
+    def _ann_record(self, a: Optional[ast.AST]) -> Optional[str]:
+        name = a.id if isinstance(a, ast.Name) else (a.value if isinstance(a, ast.Constant) and isinstance(a.value, str) else (a.attr if isinstance(a, ast.Attribute) else None))
+        return name if isinstance(name, str) and record_fields(self.repo, name) else None
+
+    def rec_type(self, e: ast.AST, assume: Optional[Dict[str, str]] = None) -> Optional[str]:
+        if isinstance(e, ast.Name):
+            return self.vars.get(e.id) or (assume or {}).get(e.id)
+        c = self.ctor(e)
+        if c is not None:
+            return c
+        if isinstance(e, ast.Call) and isinstance(e.func, ast.Attribute) and isinstance(e.func.value, ast.Name):
+            recv = self.vars.get(e.func.value.id) or (assume or {}).get(e.func.value.id)
+            if recv is not None:
+                m = self.repo.find_method(recv, e.func.attr)
+                return self._ann_record(m.node.returns) if m is not None else None
+        if isinstance(e, ast.Call):
+            try:
+                return self._returns_record(e)
+            except Exception:
+                return None
+        return None
+
+    def _discover(self) -> None:
+        self.locals = set(_store_counts(self.fn))
+        self.counts = _store_counts(self.fn)
+        defs: Dict[str, List[Optional[ast.AST]]] = {}
+        simple: Set[int] = set()
+        for n in _walk_scope(self.fn):
+            if isinstance(n, ast.Assign) and len(n.targets) == 1 and isinstance(n.targets[0], ast.Name):
+                defs.setdefault(n.targets[0].id, []).append(n.value)
+                simple.add(id(n.targets[0]))
+            elif isinstance(n, ast.AnnAssign) and isinstance(n.target, ast.Name) and n.value is not None:
+                defs.setdefault(n.target.id, []).append(n.value)
+                simple.add(id(n.target))
+        for n in _walk_scope(self.fn):
+            if isinstance(n, ast.Name) and isinstance(n.ctx, (ast.Store, ast.Del)) and id(n) not in simple:
+                defs.setdefault(n.id, []).append(None)
+        for a in ast.walk(self.fn.args):
+            if isinstance(a, ast.arg):
+                defs.setdefault(a.arg, []).append(None)
+        self.defs = defs
+        changed = True
+        while changed:
+            changed = False
+            for name, vals in defs.items():
+                if name in self.vars or any(v is None for v in vals):
+                    continue
+                ts = {self.rec_type(v) for v in vals if not _is_none(v)}
+                if len(ts) > 1 and None in ts:
+                    # `X = Rec(..)` ... `X = X.method(..)`: assume the type the other definitions give and check it
+                    guess = ts - {None}
+                    if len(guess) == 1:
+                        ts = {self.rec_type(v, {name: next(iter(guess))}) for v in vals if not _is_none(v)}
+                if len(ts) == 1 and None not in ts:
+                    self.vars[name] = next(iter(ts))
+                    changed = True
+
+    # -- methods and properties of the record class
+    def inline_members(self, fl: Flattener, stack: tuple) -> bool:
+        """one round: calls `X.m(..)` / property reads `X.p` of record locals, evaluated unconditionally at statement level"""
+        done = [False]
+
+        def member(e: ast.AST) -> Optional[Tuple[FuncInfo, ast.Call]]:
+            if isinstance(e, ast.Call) and isinstance(e.func, ast.Attribute) and isinstance(e.func.value, ast.Name) and e.func.value.id in self.vars:
+                cname = self.vars[e.func.value.id]
+                if e.func.attr in record_fields(self.repo, cname) or any(isinstance(a, ast.Starred) for a in e.args) or any(k.arg is None for k in e.keywords):
+                    return None
+                m = self.repo.find_method(cname, e.func.attr)
+                if m is not None and m.is_method and not m.node.decorator_list and m.qn not in stack:
+                    return m, e
+            if isinstance(e, ast.Attribute) and isinstance(e.ctx, ast.Load) and isinstance(e.value, ast.Name) and e.value.id in self.vars:
+                cname = self.vars[e.value.id]
+                m = self.repo.find_method(cname, e.attr)
+                if m is not None and self.repo.is_property(cname, e.attr) and len(m.node.decorator_list) == 1 and m.qn not in stack:
+                    return m, _located(ast.Call(func=e, args=[], keywords=[]), e)
+            return None
+
+        def pure(m: FuncInfo, call: ast.Call) -> Optional[ast.AST]:
+            """the member is a single `return <expression>`: the expression, with the parameters replaced by the (simple) arguments"""
+            body = [x for x in m.node.body if not (isinstance(x, ast.Expr) and isinstance(x.value, ast.Constant) and isinstance(x.value.value, str))]
+            if len(body) != 1 or not isinstance(body[0], ast.Return) or body[0].value is None:
+                return None
+            if any(isinstance(x, (ast.NamedExpr, ast.Lambda, ast.Yield, ast.YieldFrom, ast.Await)) for x in ast.walk(body[0].value)):
+                return None
+            bound = bind_args(call, m)
+            mapping: Dict[str, ast.AST] = {m.params[0]: call.func.value}
+            for pn in m.params[1:]:
+                v = bound.get(pn, m.defaults.get(pn))
+                if v is None or not isinstance(v, (ast.Name, ast.Constant)):
+                    return None
+                mapping[pn] = v
+            comp_vars = {x.id for x in ast.walk(body[0].value) if isinstance(x, ast.Name) and isinstance(x.ctx, ast.Store)}
+            if comp_vars & set(mapping):
+                return None
+            return _located(_Subst(mapping).visit(copy.deepcopy(body[0].value)), call)
+
+        class Pure(ast.NodeTransformer):
+            def visit_Lambda(self, n):
+                return n
+
+            def visit_Call(self, n):
+                self.generic_visit(n)
+                hit = member(n)
+                r = pure(hit[0], hit[1]) if hit is not None else None
+                if r is not None:
+                    done[0] = True
+                    return r
+                return n
+
+            def visit_Attribute(self, n):
+                self.generic_visit(n)
+                hit = member(n) if not getattr(n, "_is_func", False) else None
+                r = pure(hit[0], hit[1]) if hit is not None else None
+                if r is not None:
+                    done[0] = True
+                    return r
+                return n
+
+        for n in ast.walk(self.fn):
+            if isinstance(n, ast.Call) and isinstance(n.func, ast.Attribute):
+                n.func._is_func = True
+        Pure().visit(self.fn)
+        if done[0]:
+            return True
+
+        def in_expr(e: ast.AST, pre: List[ast.stmt]) -> ast.AST:
+            if isinstance(e, (ast.Lambda, ast.ListComp, ast.SetComp, ast.DictComp, ast.GeneratorExp, ast.IfExp)):
+                return e
+            if isinstance(e, ast.BoolOp):
+                e.values[0] = in_expr(e.values[0], pre)
+                return e
+            if isinstance(e, ast.Call) and isinstance(e.func, ast.Attribute) and member(e) is not None:
+                e.args = [in_expr(a, pre) for a in e.args]
+            else:
+                for fld, val in ast.iter_fields(e):
+                    if isinstance(val, ast.AST):
+                        setattr(e, fld, in_expr(val, pre))
+                    elif isinstance(val, list):
+                        setattr(e, fld, [in_expr(v, pre) if isinstance(v, ast.AST) else v for v in val])
+            hit = member(e)
+            if hit is not None:
+                m, call = hit
+                try:
+                    stmts, result = fl._instantiate(m, call, call.func.value, stack, 1)
+                except Exception:
+                    return e
+                pre.extend(stmts)
+                done[0] = True
+                return result
+            return e
+
+        def stmt(st: ast.stmt) -> List[ast.stmt]:
+            fields = {ast.If: ["test"], ast.For: ["iter"], ast.Return: ["value"], ast.Expr: ["value"], ast.Assign: ["value"], ast.AnnAssign: ["value"],
+                      ast.AugAssign: ["value"], ast.Assert: ["test"]}.get(type(st))
+            if not fields:
+                return [st]
+            pre: List[ast.stmt] = []
+            for fld in fields:
+                v = getattr(st, fld)
+                if v is not None:
+                    setattr(st, fld, in_expr(v, pre))
+            if isinstance(st, ast.Expr) and isinstance(st.value, (ast.Constant, ast.Name)) and pre:
+                return pre
+            return pre + [st]
+
+        _rewrite_blocks(self.fn, stmt)
+        return done[0]
+
+    # -- scalar replacement
+    def field_var(self, name: str, field: str) -> str:
+        return f"{self.alias.get(name, name)}__f_{field}"
+
+    def _ctor_fields(self, call: ast.Call, cname: str, pre: List[ast.stmt]) -> Optional[List[ast.AST]]:
+        fields = record_fields(self.repo, cname)
+        pos: List[ast.AST] = []
+        for a in call.args:
+            if not isinstance(a, ast.Starred):
+                pos.append(a)
+                continue
+            v = a.value
+            n = None
+            if isinstance(v, ast.Name) and v.id in self.vars:
+                self._deps.add(v.id)
+                pos.extend(ast.Name(id=self.field_var(v.id, f), ctx=ast.Load()) for f in record_fields(self.repo, self.vars[v.id]))
+                continue
+            src = self.single.get(v.id) if isinstance(v, ast.Name) else v
+            if isinstance(src, (ast.Tuple, ast.List)) and not any(isinstance(x, ast.Starred) for x in src.elts):
+                n = len(src.elts)
+            elif isinstance(src, ast.Call):
+                rt = self.rec_type(src)
+                if rt is not None:
+                    n = len(record_fields(self.repo, rt))
+                else:
+                    comps = self.extractors.get(callee_name(src))
+                    if comps and None not in comps and all(isinstance(k, int) for k in comps):
+                        n = max(comps) + 1
+                    else:
+                        n = _tuple_arity(self.repo, self.ctx, src)
+            if n is None:
+                return None
+            if not isinstance(v, ast.Name):
+                tmp = f"__sra_t{next(_nf_counter)}"
+                pre.append(_located(ast.Assign(targets=[ast.Name(id=tmp, ctx=ast.Store())], value=v, lineno=call.lineno), call))
+                v = ast.Name(id=tmp, ctx=ast.Load())
+            pos.extend(ast.Subscript(value=ast.Name(id=v.id, ctx=ast.Load()), slice=ast.Constant(value=i), ctx=ast.Load()) for i in range(n))
+        if len(pos) > len(fields):
+            return None
+        out: Dict[str, ast.AST] = dict(zip(fields, pos))
+        for k in call.keywords:
+            if k.arg is None or k.arg not in fields or k.arg in out:
+                return None
+            out[k.arg] = k.value
+        dflt = _record_defaults(self.repo, cname)
+        for f in fields:
+            if f not in out:
+                if f not in dflt or not isinstance(dflt[f], ast.Constant):
+                    return None
+                out[f] = copy.deepcopy(dflt[f])
+        return [out[f] for f in fields]
+
+    def scalarise(self) -> bool:
+        """rewrite the function; returns whether anything was changed"""
+        if not any(record_fields(self.repo, c) for c in self.repo.classes):
+            return False
+        self.single = _single_defs(self.fn)
+        # `return Rec(..)` / `f(Rec(..))`-free normal form: a constructed record that is returned gets a name first
+        def name_returns(st: ast.stmt) -> List[ast.stmt]:
+            if isinstance(st, ast.Return) and st.value is not None and self.ctor(st.value):
+                tmp = f"__sra_r{next(_nf_counter)}"
+                a = _located(ast.Assign(targets=[ast.Name(id=tmp, ctx=ast.Store())], value=st.value, lineno=st.lineno), st)
+                st.value = _located(ast.Name(id=tmp, ctx=ast.Load()), st)
+                return [a, st]
+            return [st]
+        _rewrite_blocks(self.fn, name_returns)
+        self.vars = {}
+        self._discover()
+        self.single = _single_defs(self.fn)
+        self.alias: Dict[str, str] = {}
+        if not self.vars:
+            self._typed_reads()
+            self._note_leftovers()
+            ast.fix_missing_locations(self.fn)
+            return True
+        # a record local that is a plain copy of another record local (parameter bindings of inlined helpers) is that local
+        for name in self.vars:
+            cur, n = name, 0
+            while n < 10 and self.counts.get(cur) == 1 and isinstance(self.single.get(cur), ast.Name) and self.single[cur].id in self.vars \
+                    and self.counts.get(self.single[cur].id) == 1:
+                cur = self.single[cur].id
+                n += 1
+            if cur != name:
+                self.alias[name] = cur
+        me = self
+
+        class Uses(ast.NodeTransformer):
+            def visit_FunctionDef(self, n):
+                if n is me.fn:
+                    self.generic_visit(n)
+                return n
+
+            visit_Lambda = visit_ClassDef = lambda self, n: n
+
+            def visit_Attribute(self, n):
+                if isinstance(n.value, ast.Name) and n.value.id in me.vars and isinstance(n.ctx, (ast.Load, ast.Store)):
+                    if n.attr in record_fields(me.repo, me.vars[n.value.id]):
+                        return ast.copy_location(ast.Name(id=me.field_var(n.value.id, n.attr), ctx=n.ctx), n)
+                    me.failed.append(f"{me.vars[n.value.id]}.{n.attr}")
+                    return n
+                if isinstance(n.value, ast.Call) and isinstance(n.ctx, ast.Load):
+                    rt = me.rec_type(n.value)
+                    if rt is not None and me.ctor(n.value) is None and n.attr in record_fields(me.repo, rt):
+                        self.generic_visit(n.value)
+                        return _located(ast.Subscript(value=n.value, slice=ast.Constant(value=record_fields(me.repo, rt).index(n.attr)), ctx=ast.Load()), n)
+                self.generic_visit(n)
+                return n
+
+            def visit_Subscript(self, n):
+                if isinstance(n.value, ast.Name) and n.value.id in me.vars and isinstance(n.ctx, ast.Load) and isinstance(n.slice, ast.Constant) \
+                        and isinstance(n.slice.value, int) and not isinstance(n.slice.value, bool):
+                    fields = record_fields(me.repo, me.vars[n.value.id])
+                    if -len(fields) <= n.slice.value < len(fields):
+                        return ast.copy_location(ast.Name(id=me.field_var(n.value.id, fields[n.slice.value]), ctx=ast.Load()), n)
+                self.generic_visit(n)
+                return n
+
+            def visit_Name(self, n):
+                if isinstance(n.ctx, ast.Load) and n.id in me.vars:
+                    t = ast.Tuple(elts=[ast.Name(id=me.field_var(n.id, f), ctx=ast.Load()) for f in record_fields(me.repo, me.vars[n.id])], ctx=ast.Load())
+                    t._sra = True
+                    return _located(t, n)
+                return n
+
+        plans: Dict[int, List[ast.stmt]] = {}
+        deps: Dict[str, Set[str]] = {name: set() for name in self.vars}
+        bad: Set[str] = set()
+
+        def simple_def(st: ast.stmt):
+            if isinstance(st, ast.Assign) and len(st.targets) == 1 and isinstance(st.targets[0], ast.Name):
+                return st.targets[0].id, st.value
+            if isinstance(st, ast.AnnAssign) and isinstance(st.target, ast.Name) and st.value is not None:
+                return st.target.id, st.value
+            return None, None
+
+        for st in list(_walk_scope(self.fn)):
+            tgt, val = simple_def(st) if isinstance(st, ast.stmt) else (None, None)
+            if tgt is None or tgt not in self.vars:
+                continue
+            cname = self.vars[tgt]
+            fields = record_fields(self.repo, cname)
+            pre: List[ast.stmt] = []
+            vals: Optional[List[ast.AST]]
+            if tgt in self.alias:
+                deps[tgt].add(self.alias[tgt])
+                plans[id(st)] = []
+                continue
+            if _is_none(val):
+                vals = [ast.Constant(value=None) for _f in fields]
+            elif isinstance(val, ast.Name):
+                deps[tgt].add(val.id)
+                vals = [ast.Name(id=self.field_var(val.id, f), ctx=ast.Load()) for f in fields]
+            elif self.ctor(val):
+                self._deps = deps[tgt]
+                vals = self._ctor_fields(val, cname, pre)
+                if vals is None:
+                    self.failed.append(cname)
+                    bad.add(tgt)
+                    continue
+            else:
+                tmp = f"__sra_t{next(_nf_counter)}"
+                pre.append(_located(ast.Assign(targets=[ast.Name(id=tmp, ctx=ast.Store())], value=val, lineno=st.lineno), st))
+                vals = [ast.Subscript(value=ast.Name(id=tmp, ctx=ast.Load()), slice=ast.Constant(value=i), ctx=ast.Load()) for i in range(len(fields))]
+            plans[id(st)] = pre + [_located(ast.Assign(targets=[ast.Name(id=self.field_var(tgt, f), ctx=ast.Store())], value=v, lineno=st.lineno), st)
+                                   for f, v in zip(fields, vals)]
+        # a field that is assigned (`X.f = v`, mutable dataclass): the per-field locals of two record locals that may be the same
+        # object would drift apart, so such a class is only split when none of its locals is a field-by-field copy of another
+        assigned = {self.vars[n.value.id] for n in _walk_scope(self.fn) if isinstance(n, ast.Attribute) and not isinstance(n.ctx, ast.Load)
+                    and isinstance(n.value, ast.Name) and n.value.id in self.vars}
+        for name, cname in self.vars.items():
+            if cname in assigned and name not in self.alias and any(isinstance(v, ast.Name) for v in self.defs.get(name, []) if v is not None):
+                self.failed.append(cname)
+                bad.update(x for x, c in self.vars.items() if c == cname)
+        # keep it sound: a record that could not be split stays whole everywhere, and so does every record computed from it
+        grew = True
+        while grew:
+            grew = False
+            for name, ds in deps.items():
+                if name not in bad and ds & bad:
+                    bad.add(name)
+                    grew = True
+        for name in bad:
+            self.vars.pop(name, None)
+
+        def define(st: ast.stmt) -> List[ast.stmt]:
+            tgt, _val = simple_def(st)
+            if tgt is None or tgt not in self.vars or id(st) not in plans:
+                return [st]
+            return plans[id(st)]
+
+        _rewrite_blocks(self.fn, define)
+        Uses().visit(self.fn)
+        self._typed_reads()
+        _rewrite_blocks(self.fn, self._unroll)
+        self._tables()
+        self._note_leftovers()
+        ast.fix_missing_locations(self.fn)
+        return True
+
+    def _typed_reads(self) -> None:
+        """`e.field` where e is any expression the (annotation driven) type environment knows to be a record, e.g. an element of a
+        parameter declared List[Rec]: a record is a tuple, the field is its position; a record that is constructed on the spot
+        without being bound (`xs.append(Rec(a, b))`) is the tuple of its arguments"""
+        try:
+            te = self.repo.types(FuncInfo(self.ctx.mod, self.ctx.cls, self.fn, static=self.ctx.static))
+        except Exception:
+            te = None
+        me = self
+
+        class T(ast.NodeTransformer):
+            def visit_FunctionDef(self, n):
+                if n is me.fn:
+                    self.generic_visit(n)
+                return n
+
+            visit_Lambda = visit_ClassDef = lambda self, n: n
+
+            def visit_Attribute(self, n):
+                self.generic_visit(n)
+                if not isinstance(n.ctx, ast.Load) or te is None:
+                    return n
+                try:
+                    t = te.typeof(n.value)
+                except Exception:
+                    t = None
+                if t and t[0] == "cls":
+                    fields = record_fields(me.repo, t[1])
+                    if fields and n.attr in fields and any(b.split(".")[-1] == "NamedTuple" for b in me.repo.classes[t[1]].bases):
+                        return _located(ast.Subscript(value=n.value, slice=ast.Constant(value=fields.index(n.attr)), ctx=ast.Load()), n)
+                return n
+
+            def visit_Call(self, n):
+                self.generic_visit(n)
+                c = me.ctor(n)
+                if c is not None:
+                    pre: List[ast.stmt] = []
+                    me._deps = set()
+                    vals = me._ctor_fields(n, c, pre)
+                    if vals is not None and not pre:
+                        return _located(ast.Tuple(elts=vals, ctx=ast.Load()), n)
+                return n
+
+        T().visit(self.fn)
+
+    def _note_leftovers(self) -> None:
+        for n in _walk_scope(self.fn):
+            c = self.ctor(n)
+            if c is not None:
+                self.failed.append(c)
+
+    @staticmethod
+    def _rows(it: ast.AST) -> Optional[List[ast.AST]]:
+        """rows of an iterable made of field tuples: the tuple itself, or zip(..) of such tuples"""
+        if isinstance(it, ast.Tuple) and getattr(it, "_sra", False):
+            return list(it.elts)
+        if isinstance(it, ast.Call) and isinstance(it.func, ast.Name) and it.func.id == "zip" and it.args and not it.keywords \
+                and all(isinstance(a, ast.Tuple) and getattr(a, "_sra", False) for a in it.args):
+            n = min(len(a.elts) for a in it.args)
+            return [ast.Tuple(elts=[a.elts[i] for a in it.args], ctx=ast.Load()) for i in range(n)]
+        return None
+
+    def _unroll(self, st: ast.stmt) -> List[ast.stmt]:
+        if not isinstance(st, ast.For) or st.orelse:
+            return [st]
+        rows = self._rows(st.iter)
+        if rows is None:
+            return [st]
+        if any(isinstance(x, (ast.Break, ast.Continue)) for s in st.body for x in _walk_scope(s)):
+            return [st]
+        tnames = C.target_names(st.target)
+        stored = {x.id for s in st.body for x in ast.walk(s) if isinstance(x, ast.Name) and isinstance(x.ctx, (ast.Store, ast.Del))}
+        out: List[ast.stmt] = []
+        for row in rows:
+            env: Dict[str, ast.AST] = {}
+            body = copy.deepcopy(st.body)
+            if not (tnames & stored) and Verdict.bind(st.target, row, env) and all(isinstance(v, ast.Name) for v in env.values()):
+                body = [_Subst(env).visit(s) for s in body]
+            else:
+                out.append(_located(ast.Assign(targets=[copy.deepcopy(st.target)], value=copy.deepcopy(row), lineno=st.lineno), st))
+            out.extend(body)
+        return out
+
+    def _tables(self) -> None:
+        """`.. for a, b in zip(X, Y)` inside comprehensions: the iterable becomes the literal tuple of rows"""
+        for n in _walk_scope(self.fn):
+            if isinstance(n, (ast.ListComp, ast.SetComp, ast.GeneratorExp, ast.DictComp)):
+                for gen in n.generators:
+                    if isinstance(gen.iter, ast.Call):
+                        rows = self._rows(gen.iter)
+                        if rows is not None:
+                            gen.iter = _located(ast.Tuple(elts=rows, ctx=ast.Load()), gen.iter)
+
+
+class _ConstDicts:
+    """a local dict that is only ever used with constant keys (`acc = {'add': set(), ..}; acc['add'].update(..); acc['add'] & ..`,
+    or `{True: a, False: b}[flag]`) is a bundle of locals: one local per key.  Candidates: a single definition (dict literal,
+    dict(k=v, ..), dict(zip(<constant keys>, <value>))) plus stores `d['k'] = v`; every other use is a subscript with a constant
+    key or (for the keys True / False) with a boolean-valued index.  Plain copies (parameter bindings of inlined helpers) count
+    as the same dict."""
+
+    def __init__(self, fn: ast.AST):
+        self.fn = fn
+
+    @staticmethod
+    def _keys_values(v: ast.AST):
+        """(keys, value expressions or None when taken by position from one expression, that expression)"""
+        if isinstance(v, ast.Dict) and all(isinstance(k, ast.Constant) for k in v.keys) and len({(type(k.value), k.value) for k in v.keys}) == len(v.keys):
+            return [k.value for k in v.keys], list(v.values), None
+        if isinstance(v, ast.Call) and isinstance(v.func, ast.Name) and v.func.id == "dict":
+            if not v.args and v.keywords and all(k.arg is not None for k in v.keywords):
+                return [k.arg for k in v.keywords], [k.value for k in v.keywords], None
+            if len(v.args) == 1 and not v.keywords and isinstance(v.args[0], ast.Call) and isinstance(v.args[0].func, ast.Name) and v.args[0].func.id == "zip" \
+                    and len(v.args[0].args) == 2 and not v.args[0].keywords:
+                ks, vs = v.args[0].args
+                if isinstance(ks, (ast.Tuple, ast.List)) and all(isinstance(k, ast.Constant) for k in ks.elts) and len({k.value for k in ks.elts}) == len(ks.elts):
+                    if isinstance(vs, (ast.Tuple, ast.List)) and len(vs.elts) == len(ks.elts) and not any(isinstance(x, ast.Starred) for x in vs.elts):
+                        return [k.value for k in ks.elts], list(vs.elts), None
+                    if isinstance(vs, (ast.Call, ast.Name)):
+                        return [k.value for k in ks.elts], None, vs
+        return None
+
+    @staticmethod
+    def var(name: str, key) -> str:
+        return f"{name}__k_" + re.sub(r"\W", "_", repr(key))
+
+    def run(self) -> bool:
+        fn = self.fn
+        cnt = _store_counts(fn)
+        single = _single_defs(fn)
+        cands: Dict[str, list] = {}
+        for name, v in single.items():
+            kv = self._keys_values(v)
+            if kv is not None:
+                cands[name] = list(kv[0])
+        if not cands:
+            return False
+        alias: Dict[str, str] = {}
+        for name, v in single.items():
+            cur, n = v, 0
+            while isinstance(cur, ast.Name) and cur.id in single and cur.id not in cands and n < 10:
+                cur, n = single[cur.id], n + 1
+            if isinstance(cur, ast.Name) and cur.id in cands and name not in cands:
+                alias[name] = cur.id
+        root = lambda nm: nm if nm in cands else alias.get(nm)
+        parents = {}
+        for n in ast.walk(fn):
+            for ch in ast.iter_child_nodes(n):
+                parents[ch] = n
+        # keys added by stores; every use must be a constant-key (or boolean) subscript
+        bad: Set[str] = set()
+        for n in ast.walk(fn):
+            if not (isinstance(n, ast.Name) and root(n.id) is not None):
+                continue
+            r = root(n.id)
+            par = parents.get(n)
+            if isinstance(n.ctx, ast.Store):
+                continue        # the (single) definition of the dict or of an alias
+            if isinstance(par, ast.Subscript) and par.value is n:
+                if isinstance(par.slice, ast.Constant) and not isinstance(par.ctx, ast.Del):
+                    k = par.slice.value
+                    if isinstance(par.ctx, ast.Store):
+                        if not any(k == x and type(k) is type(x) for x in cands[r]):
+                            cands[r].append(k)
+                    continue
+                if isinstance(par.ctx, ast.Load) and _boolean_valued(par.slice):
+                    continue
+            if isinstance(par, (ast.Assign, ast.AnnAssign)) and getattr(par, "value", None) is n and alias.get(_target_name(par)) == r:
+                continue        # the copy that defines an alias
+            bad.add(r)
+        for n in ast.walk(fn):
+            if isinstance(n, ast.Subscript) and isinstance(n.value, ast.Name) and root(n.value.id) is not None and root(n.value.id) not in bad:
+                r = root(n.value.id)
+                if isinstance(n.slice, ast.Constant):
+                    if isinstance(n.ctx, ast.Load) and not any(n.slice.value == x and type(n.slice.value) is type(x) for x in cands[r]):
+                        bad.add(r)
+                elif not ({True, False} == set(cands[r]) and all(isinstance(x, bool) for x in cands[r])):
+                    bad.add(r)
+        good = {r for r in cands if r not in bad}
+        if not good:
+            return False
+        me = self
+
+        def define(st: ast.stmt) -> List[ast.stmt]:
+            tgt = _target_name(st)
+            if tgt is None:
+                return [st]
+            if alias.get(tgt) in good and cnt.get(tgt) == 1:
+                return []
+            if tgt not in good:
+                return [st]
+            keys, vals, src = me._keys_values(st.value)
+            pre: List[ast.stmt] = []
+            if vals is None:
+                if not isinstance(src, ast.Name):
+                    tmp = f"__cd_t{next(_nf_counter)}"
+                    pre.append(_located(ast.Assign(targets=[ast.Name(id=tmp, ctx=ast.Store())], value=src, lineno=st.lineno), st))
+                    src = ast.Name(id=tmp, ctx=ast.Load())
+                vals = [ast.Subscript(value=ast.Name(id=src.id, ctx=ast.Load()), slice=ast.Constant(value=i), ctx=ast.Load()) for i in range(len(keys))]
+            return pre + [_located(ast.Assign(targets=[ast.Name(id=me.var(tgt, k), ctx=ast.Store())], value=v, lineno=st.lineno), st) for k, v in zip(keys, vals)]
+
+        _rewrite_blocks(fn, define)
+
+        class Uses(ast.NodeTransformer):
+            def visit_Subscript(self, n):
+                self.generic_visit(n)
+                if isinstance(n.value, ast.Name) and root(n.value.id) in good:
+                    r = root(n.value.id)
+                    if isinstance(n.slice, ast.Constant):
+                        return ast.copy_location(ast.Name(id=me.var(r, n.slice.value), ctx=n.ctx), n)
+                    return _located(ast.IfExp(test=n.slice, body=ast.Name(id=me.var(r, True), ctx=ast.Load()), orelse=ast.Name(id=me.var(r, False), ctx=ast.Load())), n)
+                return n
+
+        Uses().visit(fn)
+        ast.fix_missing_locations(fn)
+        return True
+
+
+def _target_name(st: ast.AST) -> Optional[str]:
+    if isinstance(st, ast.Assign) and len(st.targets) == 1 and isinstance(st.targets[0], ast.Name):
+        return st.targets[0].id
+    if isinstance(st, ast.AnnAssign) and isinstance(st.target, ast.Name) and st.value is not None:
+        return st.target.id
+    return None
+
+
+def _is_none(e: Optional[ast.AST]) -> bool:
+    return isinstance(e, ast.Constant) and e.value is None
+
+
+def _tuple_arity(repo: Repo, ctx: FuncInfo, call: ast.Call) -> Optional[int]:
+    """number of components of the tuple a private helper returns (every return is a tuple literal of that length)"""
+    if not is_private(callee_name(call)):
+        return None
+    t = unique_target(repo, ctx, call)
+    if t is None:
+        return None
+    rets = [n for n in _walk_scope(t.node) if isinstance(n, ast.Return)]
+    ns = {len(r.value.elts) if isinstance(r.value, ast.Tuple) and not any(isinstance(x, ast.Starred) for x in r.value.elts) else None for r in rets}
+    return next(iter(ns)) if len(ns) == 1 and None not in ns else None
+
+
+def _rewrite_blocks(node: ast.AST, fn) -> None:
+    """apply fn(statement) -> statements to every statement below node (innermost blocks first; nested definitions are not entered)"""
+    def block(stmts: List[ast.stmt]) -> List[ast.stmt]:
+        out: List[ast.stmt] = []
+        for s in stmts:
+            if not isinstance(s, _SCOPES):
+                _rewrite_blocks(s, fn)
+                out.extend(fn(s))
+            else:
+                out.append(s)
+        return out
+    for fld in ("body", "orelse", "finalbody"):
+        sub = getattr(node, fld, None)
+        if isinstance(sub, list) and sub and isinstance(sub[0], ast.stmt):
+            setattr(node, fld, block(sub) or [ast.copy_location(ast.Pass(), sub[0])])
+    if isinstance(node, ast.Try):
+        for h in node.handlers:
+            h.body = block(h.body) or [ast.copy_location(ast.Pass(), h)]
+    if isinstance(node, ast.Match):
+        for c in node.cases:
+            c.body = block(c.body) or [ast.Pass()]
+
+
 _pol_counter = itertools.count(1)
 _flat_cache: Dict[tuple, FuncInfo] = {}
 
@@ -206,22 +1366,51 @@ def flatten_full(repo: Repo, f: FuncInfo, exclude: Iterable[str] = ()) -> FuncIn
         return _flat_cache[key]
     cur = f
     inlined: List[str] = []
-    for _ in range(5):
+    stack = (f.qn,) + tuple(exclude)
+
+    def info(fn: ast.AST) -> FuncInfo:
+        nxt = FuncInfo(f.mod, f.cls, fn, static=f.static)
+        nxt.qn = f.qn
+        return nxt
+
+    for _ in range(8):
         fl = Flattener(repo, cur)
         fn = copy.deepcopy(cur.node)
         _normalise_whiles(fl, fn, cur)
-        fn.body = fl._flatten_block(list(fn.body), cur, (f.qn,) + tuple(exclude), 1)
-        if fl.inlined:
+        fun = _Functional(repo, f, fn)
+        fun.visit(fn)
+        hoisted = _hoist_nested_comprehensions(fn)
+        hoisted = _split_boolops(fn) or hoisted
+        try:
+            body = _loops_over_generators(repo, cur, list(fn.body))
+        except Exception:
+            body = list(fn.body)
+        fn.body = fl._flatten_block(body, cur, stack, 1)
+        try:
+            gen = expand_generators(repo, cur, fn, stack)
+        except Exception:
+            gen = False
+        members = _Records(repo, cur, fn).inline_members(fl, stack)
+        if fl.inlined or gen:
             specialise(fn)
         _expand_polarity_constructs(fl, fn)
         fn = _FoldIntConstants(repo, f, fn).visit(fn)
         ast.fix_missing_locations(fn)
-        nxt = FuncInfo(f.mod, f.cls, fn, static=f.static)
-        nxt.qn = f.qn
         inlined.extend(fl.inlined)
-        cur = nxt
-        if not fl.inlined:
+        cur = info(fn)
+        if not (fl.inlined or gen or members or fun.changed or hoisted):
             break
+    # record-valued locals -> one local per field (last: every helper that handles whole records is in place by now)
+    fn = copy.deepcopy(cur.node)
+    rec = _Records(repo, cur, fn)
+    split = rec.scalarise()
+    if _ConstDicts(fn).run():
+        split = True
+        _expand_polarity_constructs(Flattener(repo, cur), fn)
+    if split:
+        ast.fix_missing_locations(fn)
+        cur = info(fn)
+    cur.unsplit_records = sorted(set(rec.failed))
     cur.flat_of = f
     cur.inlined = list(dict.fromkeys(inlined))
     _flat_cache[key] = cur
@@ -391,18 +1580,27 @@ def _discover_in(repo: Repo, f: FuncInfo, roles: Dict[str, str], depth: int):
         return None
 
     calls = sorted(L.calls_in(f.node), key=lambda c: (getattr(c, "lineno", 0), getattr(c, "col_offset", 0)))
-    for c in calls:
-        name = callee_name(c)
-        if not is_private(name):
-            continue
+
+    def bound_roles(c) -> Optional[Tuple[FuncInfo, Dict[str, str]]]:
+        if not is_private(callee_name(c)):
+            return None
         t = unique_target(repo, f, c)
         if t is None or t.qn == f.qn:
-            continue
+            return None
         got: Dict[str, str] = {}
         for pn, a in bind_args(c, t).items():
             r = role_of(a)
             if r is not None and r not in got:
                 got[r] = pn
+        return t, got
+
+    # first the extraction call (it may be nested in the argument list of the packing call, i.e. come later in source order), then
+    # the packing call, which is the one that receives the extraction's result
+    for c in calls:
+        b = bound_roles(c)
+        if b is None:
+            continue
+        t, got = b
         have = set(got)
         if {"AGENTS", "PROBLEM"} <= have and ("TEXT" in have or "PATH" in have) and depth < 2:
             sub = _discover_in(repo, t, got, depth + 1)
@@ -410,9 +1608,14 @@ def _discover_in(repo: Repo, f: FuncInfo, roles: Dict[str, str], depth: int):
                 return sub
         if e_call is None and {"TEXT", "AGENTS"} <= have and "PROBLEM" not in have:
             e_call, e_step = c, Step(t, got)
+    if e_call is None:
+        return None
+    for c in calls:
+        if c is e_call:
             continue
-        if e_call is not None and {"PLAN", "AGENTS", "PROBLEM"} <= have:
-            return e_step, Step(t, got)
+        b = bound_roles(c)
+        if b is not None and {"PLAN", "AGENTS", "PROBLEM"} <= set(b[1]):
+            return e_step, Step(b[0], b[1])
     return None
 
 
@@ -730,8 +1933,35 @@ class Verdict:
         if ra is None or rb is None:
             return None
         name = "pair:" + pair_name(ra, rb)
-        self.pairs_seen.add(pair_name(ra, rb))
+        self.pairs_seen.update(self.components(name))
         return name, pol
+
+    @staticmethod
+    def _split_role(r: str) -> List[str]:
+        who, _, kinds = r.partition(".")
+        return [f"{who}.{k}" for k in kinds.split("/")] if kinds else [r]
+
+    @classmethod
+    def components(cls, atom_name: str) -> List[str]:
+        """a set that holds several kinds of elements (`writes | reads`) is the union of its kinds: a common element of two such
+        sets is a common element of one of the kind-by-kind pairs"""
+        a, _, b = atom_name[5:].partition("&")
+        return [pair_name(x, y) for x in cls._split_role(a) for y in cls._split_role(b)]
+
+    def _lookup(self, name: str, sc: Dict[str, bool]) -> Optional[bool]:
+        if name in sc:
+            return sc[name]
+        if name.startswith("pair:"):
+            vals = [sc.get("pair:" + c, sc.get("pair:*")) for c in self.components(name)]
+            if any(v is True for v in vals):
+                return True
+            return False if vals and all(v is False for v in vals) else None
+        if name.startswith("nonempty:"):
+            vals = [sc.get("nonempty:" + r) for r in self._split_role(name[9:])]
+            if any(v is True for v in vals):
+                return True
+            return False if vals and all(v is False for v in vals) else None
+        return None
 
     def _nonempty(self, x: ast.AST, env, pol: bool) -> Optional[Tuple[str, bool]]:
         ab = self._intersection(x, env)
@@ -828,11 +2058,10 @@ class Verdict:
         a = self.atom(e, env)
         if a is not None:
             name, pol = a
-            if name in sc:
-                return sc[name] if pol else (not sc[name])
-            if name.startswith("pair:") and "pair:*" in sc:
-                return sc["pair:*"] if pol else (not sc["pair:*"])
-            return None
+            v = self._lookup(name, sc)
+            if v is None:
+                return None
+            return v if pol else (not v)
         if isinstance(e, ast.Call) and isinstance(e.func, ast.Name) and e.func.id in ("all", "any") and len(e.args) == 1 and not e.keywords \
                 and isinstance(e.args[0], (ast.GeneratorExp, ast.ListComp, ast.SetComp)) and len(e.args[0].generators) == 1:
             comp = e.args[0]
